@@ -116,7 +116,13 @@ def gen_template(rng):
     dirs = [join(c).rstrip(".") or "d" for c in chunks]
     fname = join(file_fields)
     if end:
-        fname += rng.choice(["-", "_to_", "."]) + join(end)
+        tail = rng.choice(["-", "_to_", "."]) + join(end)
+        if style == "partial" and len(end) >= 2 and (len(fname) + len(dirs)) % 2 == 0:
+            # an end that stops above the start's finest field (end_hour/end_minute next to a start with
+            # seconds or milliseconds): the missing finer fields come from the start as well
+            tail = tail[:tail.rindex("{end_")]
+            style = "partial-short"
+        fname += tail
     names = list(users)
     for u in names:
         where = rng.randrange(3)
@@ -131,6 +137,13 @@ def gen_template(rng):
             fname += "_{" + u + "}"
     fname += rng.choice([".nc", ".dat", ".h5.txt", "_.bin"])
     template = "/".join(dirs + [fname])
+    # custom patterns that end in a closing parenthesis; half of them repeated on a directory level
+    for u, plain, grouped in (("sat", "[a-z]+", "(?:noaa|metop|aqua)"), ("ver", r"v\d", r"v(?:\d)")):
+        if users.get(u) == plain and len(template) % 2 == 0:
+            users[u] = grouped
+            if len(template) % 4 == 0 and template.count("{" + u + "}") == 1:
+                template = "{" + u + "}_x/" + template
+                dirs = ["x"] + dirs
     cov = None
     if style == "none_cov":
         cov = rng.choice([D(seconds=1), D(minutes=5), D(hours=6), D(days=1), D(days=31)])
@@ -299,12 +312,12 @@ def roundtrip(rec, fs, tj, s, e, fill):
         rec.violation("name-end-time", case, {"why": "end differs", "name": name,
                                               "got": str(info.times[1]), "want": str(want_end),
                                               "style": tj["style"]})
-    if tj["style"] == "partial":
+    if tj["style"] in ("partial", "partial-short"):
         cand_before = T.expected_end(tj["template"], s, e)
         if cand_before is not None and cand_before.date() != s.date() or (
                 cand_before is not None and cand_before.hour != s.hour and tj["lead"] != "hour"):
             rec.count("partial_end.rollover")
-    interesting = tj["style"] in ("complete", "partial") or tj["dkind"] == "doy" or \
+    interesting = tj["style"] in ("complete", "partial", "partial-short") or tj["dkind"] == "doy" or \
         tj["ykind"] == "year2"
     if interesting and near_rollover(s, e):
         rec.nontriv([tj["ykind"], tj["dkind"], tj["finest"], tj["style"], tj["lead"],
